@@ -3,6 +3,7 @@ From Coq Require Import List NArith Bool Lia Sorted.
 From Coq Require Import ZifyBool ZifyNat ZifyN.
 From Agdb Require Import ExecSched.
 Import ListNotations.
+Import ExecM.
 Open Scope N_scope.
 
 Notation cnt i l := (count_occ N.eq_dec l i).
